@@ -153,6 +153,23 @@ fn case_expr_inner(expr: &str, iterate: bool, acc: &mut Acc) {
     acc.states += 1;
     let case = || json!({"kind": "expr", "expr": expr, "iterate": iterate});
     let got = real_parse(expr);
+    // FromStr is the same reader: it must give the same verdict as parse
+    {
+        use std::str::FromStr;
+        acc.transitions += 1;
+        let via_from_str = call(|| CronSchedule::from_str(expr).is_ok());
+        let via_parse = match &got {
+            Out::Val(r) => Some(r.is_ok()),
+            _ => None,
+        };
+        if let (Out::Val(a), Some(b)) = (&via_from_str, via_parse) {
+            if *a != b {
+                acc.violation("CronSchedule::from_str", "from_str-disagrees-with-parse", case(), format!("same verdict as parse ({})", if b { "Ok" } else { "Err" }), format!("{}", if *a { "Ok" } else { "Err" }));
+            }
+        } else if !matches!(via_from_str, Out::Val(_)) {
+            acc.violation("CronSchedule::from_str", "panic", case(), "Ok or Err".into(), via_from_str.show());
+        }
+    }
     match (&want, &got) {
         (Verdict::Unjudged, Out::Val(_)) => acc.branch("unjudged-by-documentation"),
         (Verdict::Reject, Out::Val(Err(true))) => {
@@ -270,9 +287,10 @@ fn base_expressions() -> Vec<String> {
     v
 }
 
-// the last four characters are the non-ASCII characters whose Unicode upper- or lower-casing is an
-// ASCII letter (long s, dotless i, dotted capital I, Kelvin sign)
-const EDIT_SIGMA: &str = "0123456789*/-,abcdefghijklmnopqrstuvwxyz +.#?_L\u{17f}\u{131}\u{130}\u{212a}";
+// after the ASCII part: the non-ASCII characters whose Unicode upper- or lower-casing is an ASCII letter
+// (long s, dotless i, dotted capital I, Kelvin sign), then control characters, no-break space, byte order
+// mark and line separator (what a trimming or sanitising step might swallow)
+const EDIT_SIGMA: &str = "0123456789*/-,abcdefghijklmnopqrstuvwxyz +.#?_L\u{17f}\u{131}\u{130}\u{212a}\u{0}\u{1b}\u{7f}\u{9f}\u{a0}\u{feff}\u{2028}";
 
 fn mutants(base: &str) -> Vec<String> {
     let c: Vec<char> = base.chars().collect();
@@ -326,7 +344,7 @@ pub fn run(ctx: &Ctx) -> i32 {
     all.sort();
     all.dedup();
     let thorough = ctx.thorough;
-    rep.sweep("mutants: every single-character deletion / insertion / substitution of the base expressions", all.len() as u64, "alphabet 0-9 * / - , a-z space + . # ? _ L and the four non-ASCII case-mapping aliases of s, i, k", |i, acc| {
+    rep.sweep("mutants: every single-character deletion / insertion / substitution of the base expressions", all.len() as u64, "alphabet 0-9 * / - , a-z space + . # ? _ L, the four non-ASCII case-mapping aliases of s, i, k, and NUL ESC DEL U+009F NBSP BOM LS", |i, acc| {
         case_expr(&all[i as usize], thorough || i % 4 == 0, acc);
         if i % 50_021 == 0 {
             acc.sample(json!({"expr": all[i as usize], "reference": format!("{:?}", rc::parse(&all[i as usize])).chars().take(60).collect::<String>()}));
